@@ -9,6 +9,7 @@ import (
 	"time"
 
 	"github.com/trustbloc/sidetree-core-go/pkg/jws"
+	"github.com/trustbloc/sidetree-core-go/pkg/versions/1_0/client"
 	"github.com/trustbloc/sidetree-core-go/pkg/verifhooks"
 
 	"verifharness/hx"
@@ -71,6 +72,18 @@ func jwsCall(p []byte) (reply []byte) {
 		var wg sync.WaitGroup
 		var mu sync.Mutex
 		problem := ""
+		// signer objects shared by all goroutines (one per key type): a signer holds a key, nothing a call may leave behind
+		type sharedSigner struct {
+			signer client.Signer
+			pub    *jws.JWK
+			typ    string
+		}
+		var shared []sharedSigner
+		for ti, t := range ref.KeyTypes {
+			k := ref.NewKey(t, fmt.Sprint("shared", ti), append(append([]byte{}, seed...), 0xf0, byte(ti)))
+			kj := jwkStrings(k)
+			shared = append(shared, sharedSigner{libSigner(k, ""), &jws.JWK{Kty: kj["kty"], Crv: kj["crv"], X: kj["x"], Y: kj["y"]}, t})
+		}
 		for g := 0; g < 8; g++ {
 			wg.Add(1)
 			go func(g int) {
@@ -95,6 +108,22 @@ func jwsCall(p []byte) (reply []byte) {
 							mu.Lock()
 							if problem == "" {
 								problem = fmt.Sprintf("verification #%d gave %s while other verifications were running, %s when run alone", n, got, want[n])
+							}
+							mu.Unlock()
+							return
+						}
+					}
+					for k := 0; k < 4; k++ {
+						sh := shared[(g+round+k)%len(shared)]
+						payload := []byte(fmt.Sprintf(`{"shared-signer":%d,"round":%d,"k":%d,"pad":"%s"}`, g, round, k, strings.Repeat("y", (round*7+k)%40)))
+						j, err := verifhooks.SignPayload(payload, sh.signer)
+						if err == nil {
+							_, err = verifhooks.VerifyJWS(j, sh.pub)
+						}
+						if err != nil {
+							mu.Lock()
+							if problem == "" {
+								problem = "a JWS signed with a signer object that other goroutines use at the same time (" + sh.typ + ") does not verify under its key: " + err.Error()
 							}
 							mu.Unlock()
 							return
@@ -189,7 +218,7 @@ func cloneJWK(m map[string]string) map[string]string {
 }
 
 func checkC09(c *hx.Ctx) {
-	c.Rule("for each of the five key types: genuine compact JWS built independently (harness/ref) and by the library's SignPayload, headers {alg}, {alg,kid} and - signed by the library - {alg[,kid],b64:true|false}, several payload sizes; oracle (constructive): verifies under its key; every single-byte alteration (2 bit patterns) of the decoded protected header that changes its value or breaks it, every byte of the payload, every byte of the signature, truncations/extensions/empty/swapped/zeroed r or s, every pairing with every other key of the universe, and JWKs made of the genuine characters split at another member boundary (verified in one process right after and right before the genuine JWK) must be rejected; a library signer object that signs twice must leave its first signature intact and valid; eight goroutines verifying genuine and altered JWS of equal length (and signing) at once must get the outcomes of the calls made alone (race detector in the thorough tier) (the ECDSA twin (r,n-s) is counted, not judged); malformed JWKs (missing/unknown kty or crv, coordinate length +-1, off-curve point, wrong Ed25519 size), headers without alg or with non-boolean b64, and structured-random compact strings must yield an error and never a panic; executed through the verif-tagged re-export of internal/jws in crash-isolated workers; non-trivial = altered or malformed input; distinct = distinct (jws, jwk) inputs")
+	c.Rule("for each of the five key types: genuine compact JWS built independently (harness/ref) and by the library's SignPayload, headers {alg}, {alg,kid} and - signed by the library - {alg[,kid],b64:true|false}, several payload sizes; oracle (constructive): verifies under its key; every single-byte alteration (2 bit patterns) of the decoded protected header that changes its value or breaks it, headers with a repeated member name (first, last, equal value), every byte of the payload, every byte of the signature, truncations/extensions/empty/swapped/zeroed r or s, every pairing with every other key of the universe, and JWKs made of the genuine characters split at another member boundary (verified in one process right after and right before the genuine JWK) must be rejected; a library signer object that signs twice must leave its first signature intact and valid; eight goroutines verifying genuine and altered JWS of equal length (and signing) at once must get the outcomes of the calls made alone (race detector in the thorough tier) (the ECDSA twin (r,n-s) is counted, not judged); malformed JWKs (missing/unknown kty or crv, coordinate length +-1, off-curve point, wrong Ed25519 size), headers without alg or with non-boolean b64, and structured-random compact strings must yield an error and never a panic; executed through the verif-tagged re-export of internal/jws in crash-isolated workers; non-trivial = altered or malformed input; distinct = distinct (jws, jwk) inputs")
 	c.Assume("Go crypto and btcec are trusted; a header edit counts as an alteration only if the header value changes or stops parsing (DESIGN Appendix B)")
 	pool := hx.NewPool(c, "jws", 16, 4*1024*1024, 30*time.Second)
 	defer pool.Close()
@@ -411,6 +440,18 @@ func checkC09(c *hx.Ctx) {
 			}
 			if !mustReject("header-member:"+kt, jwsCase{Kind: "verify", JWS: ref.B64(hb) + "." + p + "." + s, JWK: jwk}) {
 				return
+			}
+		}
+		// a member name repeated in the protected header: the header that arrives is not the header that was signed, whichever
+		// occurrence a lenient decoder would keep (first, last, equal value)
+		if len(g.header) > 2 && g.header[0] == '{' {
+			body := string(g.header[1 : len(g.header)-1])
+			for _, dup := range []string{
+				`{"alg":"none",` + body + `}`, `{"kid":"somebody-else",` + body + `}`, `{"alg":"` + g.key.Alg() + `",` + body + `}`,
+				`{` + body + `,"alg":"none"}`, `{` + body + `,"alg":"` + g.key.Alg() + `"}`, `{"b64":false,` + body + `}`, `{` + body + `,` + body + `}`} {
+				if !mustReject("header-repeated-member:"+kt, jwsCase{Kind: "verify", JWS: ref.B64([]byte(dup)) + "." + p + "." + s, JWK: jwk}) {
+					return
+				}
 			}
 		}
 		// ---- payload alterations
